@@ -35,7 +35,24 @@ def _order(o: Any) -> Any:
     return tuple(o) if isinstance(o, list) else o
 
 
-def _base_graph(b: int) -> nx.Graph:
+SYN = [
+    # (nodes [(id, element, charge)], edges [(u, v, order)])  - plain orders, so the default order (1) / charge (0) matter
+    ([(1, "C", 0), (2, "C", 0), (3, "O", 0)], [(1, 2, 1), (2, 3, 2)]),
+    ([(1, "C", 0), (2, "N", 0), (3, "O", -1), (4, "C", 0)], [(1, 2, 1), (2, 3, 1), (2, 4, 1)]),
+    ([(1, "C", 0), (2, "C", 0), (3, "C", 0), (4, "C", 0)], [(1, 2, 1), (2, 3, 1), (3, 4, 1), (4, 1, 1)]),
+    ([(1, "O", 0), (2, "C", 1), (3, "O", -1)], [(1, 2, 2), (2, 3, 1)]),
+]
+
+
+def _base_graph(b: Any) -> nx.Graph:
+    if isinstance(b, str) and b.startswith("syn"):
+        nodes, edges = SYN[int(b[3:]) % len(SYN)]
+        g = nx.Graph()
+        for n, el, ch in nodes:
+            g.add_node(n, element=el, charge=ch, atom_map=n)
+        for u, v, o in edges:
+            g.add_edge(u, v, order=o, standard_order=0)
+        return g
     it = items()[b % len(items())]
     g = nx.Graph()
     for n, el, ch in it["nodes"]:
@@ -56,6 +73,14 @@ def build(sp: Dict[str, Any]) -> nx.Graph:
     g = _base_graph(sp["base"])
     if sp.get("edit"):
         apply_edit_inplace(g, sp["edit"])
+    if sp.get("omit_defaults"):
+        # the same graph, written without the attributes that equal the documented defaults (charge 0, order 1)
+        for _, d in g.nodes(data=True):
+            if d.get("charge") == 0:
+                d.pop("charge", None)
+        for _, _, d in g.edges(data=True):
+            if d.get("order") == 1:
+                d.pop("order", None)
     rs = sp.get("relabel")
     if rs is None:
         return g
@@ -83,12 +108,14 @@ def content_key(sp: Dict[str, Any]) -> str:
     """Content of the graph up to relabelling inputs (base + edit); relabel does not change the class."""
     if sp["base"] == "empty":
         return json.dumps(["empty", None])
+    if isinstance(sp["base"], str):
+        return json.dumps([sp["base"], sp.get("edit")])
     return json.dumps([sp["base"] % len(items()), sp.get("edit")])
 
 
 def invariant_attr(g: nx.Graph) -> str:
     """Isomorphism-invariant pre-grouping attribute computed by the harness (never SynKit's signature)."""
-    return "|".join(sorted(f"{d.get('element')}{int(d.get('charge', 0))}" for _, d in g.nodes(data=True))) + f"#{g.number_of_edges()}"
+    return "|".join(sorted(f"{d.get('element', '*')}{int(d.get('charge', 0))}" for _, d in g.nodes(data=True))) + f"#{g.number_of_edges()}"
 
 
 def invariant_attr_kind(g: nx.Graph, kind: str) -> Any:
@@ -152,12 +179,15 @@ def apply_edit_inplace(g: nx.Graph, ed: List[Any]) -> None:
     """Apply the same edit build() applies, to a graph whose node ids are the corpus ids (un-relabelled)."""
     nodes = sorted(g.nodes())
     edges = sorted((min(u, v), max(u, v)) for u, v in g.edges())
-    if ed[0] == "charge":
+    if ed[0] == "charge_set":
+        n = nodes[ed[1] % len(nodes)]
+        g.nodes[n]["charge"] = ed[2]
+    elif ed[0] == "charge":
         n = nodes[ed[1] % len(nodes)]
         g.nodes[n]["charge"] = g.nodes[n].get("charge", 0) + 1
     elif ed[0] == "order" and edges:
         u, v = edges[ed[1] % len(edges)]
-        o = g[u][v].get("order")
+        o = g[u][v].get("order", 1)          # an absent order is the documented default 1
         if isinstance(o, tuple):
             o = (o[0], (o[1] or 0) + 1)
             g[u][v]["standard_order"] = o[0] - o[1]
